@@ -142,7 +142,7 @@ func Scratch() string {
 // RunTLC runs TLC on module/cfg inside dir with extra environment.
 func RunTLC(dir, module, cfg string, workers int, timeout time.Duration, env map[string]string, extra ...string) TLCResult {
 	meta, _ := os.MkdirTemp(dir, "meta-")
-	args := []string{"-XX:+UseParallelGC", "-Xss64m", "-cp", tlcJar, "tlc2.TLC",
+	args := []string{"-XX:+UseParallelGC", "-Xss64m", "-Xmx10g", "-cp", tlcJar, "tlc2.TLC",
 		"-workers", strconv.Itoa(workers), "-metadir", meta, "-config", cfg}
 	args = append(args, extra...)
 	args = append(args, module)
@@ -334,6 +334,9 @@ func RunFamily(f Family, o Options) *FamilyReport {
 			defer wg.Done()
 			for i := range ch {
 				outs[i] = f.Run(&cases[i])
+				if len(cases) > 20000 {
+					outs[i].Replay = nil // regenerated for the few cases that need a replay file
+				}
 			}
 		}()
 	}
@@ -440,6 +443,11 @@ func RunFamily(f Family, o Options) *FamilyReport {
 	// attach replay material to failures
 	for k := range rep.Fails {
 		i := keys[rep.Fails[k].Case.Key]
+		if outs[i].Replay == nil && k < 200 {
+			if again := f.Run(&cases[i]); again != nil {
+				outs[i].Replay = again.Replay
+			}
+		}
 		rep.Fails[k].Replay = WriteReplay(&cases[i], outs[i], rep.Fails[k].Monitor)
 	}
 	rep.AllCases = cases
